@@ -901,6 +901,18 @@ impl QuicSocket {
         let _ = self.flush_pending_data();
     }
 
+    /// Abort the sending side of the stream. Unlike [`Self::shutdown_stream`] in the write
+    /// direction, it tells the peer (`RESET_STREAM`) that the stream has not come to its end.
+    /// Still unsent data is dropped.
+    pub fn reset_stream(&self, stream_id: u64, error_code: u64) {
+        let _ = self.quic_conn.lock().unwrap().stream_shutdown(
+            stream_id,
+            quiche::Shutdown::Write,
+            error_code,
+        );
+        let _ = self.flush_pending_data();
+    }
+
     pub fn graceful_shutdown(&self) -> io::Result<()> {
         {
             let mut quic_conn = self.quic_conn.lock().unwrap();
